@@ -470,6 +470,24 @@ func (w *worker) run(i int, name string) {
 		c.Count("steady_state_identical_claim_secret", 1)
 	}
 
+	// a claim with the SAME NAME in another namespace points its resourceRef at this (bound) XR: it
+	// is not the XR's claim, so Crossplane must not hand it the XR's secret
+	if i%3 == 0 {
+		world.MustSeed("user", xrk.ClaimObject("ex.org/v1", "Thing", "ns2", "c1", map[string]any{"resourceRef": map[string]any{"apiVersion": "ex.org/v1", "kind": "XThing", "name": "static-xr"},
+			"compositionRef": map[string]any{"name": "comp"}, "writeConnectionSecretToRef": map[string]any{"name": "claim-secret"}}))
+		refBefore, _, _ := unstructured.NestedMap(world.GetObj(xrKey), "spec", "claimRef")
+		for k := 0; k < 3; k++ {
+			_, _, _ = ce.Reconcile("ns2", "c1")
+		}
+		if s := world.GetObj(sim.Key{Kind: "Secret", Namespace: "ns2", Name: "claim-secret"}); s != nil {
+			fail("secret-copied-to-claim-that-is-not-bound", fmt.Sprintf("claim ns2/c1 (same name as the bound claim ns1/c1, other namespace) received a connection secret with keys %v", keysOf(secretData(s))))
+		}
+		if refAfter, _, _ := unstructured.NestedMap(world.GetObj(xrKey), "spec", "claimRef"); !reflect.DeepEqual(refBefore, refAfter) {
+			fail("xr-rebound-to-same-named-claim-in-other-namespace", fmt.Sprintf("XR claimRef changed from %v to %v", refBefore, refAfter))
+		}
+		c.Count("same_name_other_namespace_claims", 1)
+	}
+
 	filtered := false
 	for k := range expected {
 		if !allowed(k) {
@@ -606,6 +624,57 @@ func (w *worker) runProvenance(i int, name string) {
 	}
 }
 
+// runSharedController: one XR controller (one reconciler, one connection-details fetcher, one
+// publisher) serves several XRs of the kind in turn. XR xr-a's composed resource has published a
+// connection secret, XR xr-b's has not (yet). Whatever the controller keeps between reconciles,
+// xr-b's secret holds only what the composition produced for xr-b.
+func (w *worker) runSharedController(i int, name string) {
+	c := w.c
+	ctx := context.Background()
+	world := sim.NewWorld(xrk.Scheme(), uint64(c.Seed)*163+uint64(i))
+	xrd := xrk.XRDObject(xrk.XRDOpts{Group: "ex.org", Kind: "XThing", Plural: "xthings"})
+	world.MustSeed("user", xrd)
+	base := nopObj("a")
+	world.MustSeed("user", xrk.ResourcesComposition("comp", "ex.org/v1", "XThing", []map[string]any{{
+		"name": "a", "base": base, "readinessChecks": []any{map[string]any{"type": "None"}},
+		"patches": []any{map[string]any{"type": "FromCompositeFieldPath", "fromFieldPath": "metadata.name", "toFieldPath": "spec.writeConnectionSecretToRef.name",
+			"transforms": []any{map[string]any{"type": "string", "string": map[string]any{"type": "Format", "fmt": "cd-%s-conn"}}}}},
+		"connectionDetails": []any{map[string]any{"name": "password", "type": "FromConnectionSecretKey", "fromConnectionSecretKey": "k"}},
+	}}))
+	if err := xrk.ReconcileComposition(world, "comp"); err != nil {
+		panic(err)
+	}
+	names := []string{"xr-a", "xr-b", "xr-c"}
+	have := map[string]bool{"xr-a": true, "xr-c": i%2 == 0}
+	for _, n := range names {
+		world.MustSeed("user", xrk.XRObject("ex.org/v1", "XThing", n, "comp", map[string]any{"writeConnectionSecretToRef": map[string]any{"name": n + "-secret", "namespace": xrSecretNS}}))
+		if have[n] {
+			_ = world.Client("provider").Create(ctx, mkSecret(xrSecretNS, "cd-"+n+"-conn", connType, map[string]string{"k": "secret-of-" + n}, nil))
+		}
+	}
+	xe := xrk.NewXREnv(world, xrk.XRDTyped(xrd))
+	defer xe.CloseConns()
+	for round := 0; round < 4; round++ {
+		for _, n := range names {
+			_, _, _ = xe.Reconcile(n)
+		}
+		for _, n := range names {
+			got := secretData(world.GetObj(sim.Key{Kind: "Secret", Namespace: xrSecretNS, Name: n + "-secret"}))
+			for k, v := range got {
+				if v != "secret-of-"+n {
+					c.Violate("xr-secret-holds-another-xrs-details:pt", name, fmt.Sprintf("round %d: the secret of %s holds %s=%q, which the composition did not produce for this XR (its composed resource's own secret: present=%v)", round, n, k, v, have[n]),
+						map[string]any{"xr": n, "secret": got, "composed_resource_secret_present": have})
+				}
+			}
+			if !have[n] && len(got) > 0 {
+				c.Count("shared_controller_unexpected_keys", 1)
+			}
+		}
+	}
+	c.Eval(fmt.Sprintf("shared-controller|%d", i), true)
+	c.Count("shared_controller_cases", 1)
+}
+
 func keysOf(m map[string]string) []string {
 	var out []string
 	for k := range m {
@@ -621,7 +690,7 @@ var _ = schema.GroupKind{}
 func main() {
 	c := kit.New("C09", "exploration")
 	c.Rule = "generated cases: composer mode x XRD connectionSecretKeys filter (none / subset / disjoint) x connection details (pipeline: details of the first and of the last step; P&T: per-template extraction configs from secret key present/missing, field path string/int/missing, fixed value) x XR with/without writeConnectionSecretToRef x pre-existing XR secret (absent, uncontrolled connection-typed, uncontrolled Opaque, controlled by the XR, controlled by a foreign UID) x claim with/without writeConnectionSecretToRef x pre-existing claim secret x tampering with the XR secret's controller before the claim copies; XR reconciler (both composers) then claim reconciler (both syncers), then a second round. Oracle over stored Secrets and the write log: keys the XR wrote are within the filter and equal the reference extraction; nothing is written when not requested; not-controllable secrets stay byte-identical; the claim secret is an exact copy made only from a secret controlled by the bound XR; the second round writes no secret. distinct = the case; non-trivial = a key was filtered out or a secret pre-existed."
-	c.Rule += " Provenance cases (both composers): XR details derived from the composed resources' connection secrets; a referenced resource is re-parented in place or recreated by another owner behind the XR controller's lagging cache and points at that owner's secret; neither the XR's nor the claim's secret may hold that owner's values."
+	c.Rule += " Shared controller: three XRs of the kind served in turn by ONE reconciler (one fetcher, one publisher); only some composed resources have published a connection secret; each XR secret holds only its own resource's values. A claim with the bound claim's name in another namespace referencing the XR gets no secret and does not rebind it. Provenance cases (both composers): XR details derived from the composed resources' connection secrets; a referenced resource is re-parented in place or recreated by another owner behind the XR controller's lagging cache and points at that owner's secret; neither the XR's nor the claim's secret may hold that owner's values."
 	c.Assumptions = []string{"sim stores typed Secrets as their JSON (base64 data)", "reference extraction follows the ConnectionDetail API documentation"}
 	c.Floor = 100
 	n := c.N(1200, 20000)
@@ -649,6 +718,15 @@ func main() {
 	close(ch)
 	wg.Wait()
 	pw := newWorker(c, 8)
+	for i := 0; i < c.N(4, 40); i++ {
+		name := fmt.Sprintf("shared-controller/%d", i)
+		if !c.Want(name) {
+			continue
+		}
+		if err := kit.Try(func() { pw.runSharedController(i, name) }); err != nil {
+			c.Violate("panic", name, err.Error(), nil)
+		}
+	}
 	for i := 0; i < c.N(16, 160); i++ {
 		name := fmt.Sprintf("provenance/%d", i)
 		if !c.Want(name) {
